@@ -82,6 +82,11 @@ static int setup(int which, int fd)
   auto idx = S.nsys++;
   auto it = S.faults.find(idx);
   int err = it == S.faults.end() ? 0 : static_cast<int>(it->second);
+  if(it == S.faults.end()) {
+    // rules (negative keys -(100 * from + which)): every call of that kind with index >= from fails; first rule in file order wins
+    for(auto const &r : S.rules)
+      if((-r.first) % 100 == which && (-r.first) / 100 <= idx) { err = static_cast<int>(r.second); break; }
+  }
   log(8, {which, fd, err});
   return err;
 }
@@ -164,7 +169,12 @@ ssize_t send(int fd, const void *buf, size_t len, int flags)
       else if(arg(e, 0) <= static_cast<long long>(len)) { f.off += static_cast<size_t>(arg(e, 0)); if(f.off >= f.size && !(arg(e, 0) == 0 && len > 0)) q.pop_front(); }
     }
   } else if(!check(2ull * fd, S.out_pos[fd], static_cast<char const *>(buf), len)) anomaly(1, fd, static_cast<long long>(S.out_pos[fd]));
-  if(arg(e, 0) < 0) { errno = static_cast<int>(arg(e, 1)); return -1; }
+  if(arg(e, 0) < 0) {
+    // a write to a connection the peer has reset raises SIGPIPE unless the caller asked for MSG_NOSIGNAL
+    if(arg(e, 1) == EPIPE && !(flags & MSG_NOSIGNAL)) { fwrite(S.trace.data(), 1, S.trace.size(), stdout); fflush(stdout); signal(SIGPIPE, SIG_DFL); raise(SIGPIPE); }
+    errno = static_cast<int>(arg(e, 1));
+    return -1;
+  }
   if(arg(e, 0) > static_cast<long long>(len)) stuck(1);
   S.out_pos[fd] += static_cast<uint64_t>(arg(e, 0));
   return arg(e, 0);
